@@ -27,6 +27,11 @@ def tasks(ctx, quick):
              "value": rng.choice([1.0, 0.5, 2.16, 7.87, 19.3, 0.001, rng.uniform(0.01, 25)])})
         if i % 4 == 2:
             items[-1]["T"] = rng.choice(["T2", "T2", "T1"])       # T2: a table whose owner changed its masses
+    # density tags on parenthesised mixtures
+    for i in range(40 if quick else 400):
+        add({"kind": "natd", "compound": ["seq", [[c, [z, a, q]] for z, a, q, c in compound(1, 3)]], "how": ["group_tag_n", "group_tag"][i % 2],
+             "pct": rng.choice([10, 40, 75.5]), "second": rng.choice(["H2O", "D2O", "NaCl", "Fe[56]2O3"]),
+             "value": rng.choice([1.0, 1.05, 2.16, 7.87, rng.uniform(0.5, 20)])})
     # densities after an in-place change of the composition
     for i in range(60 if quick else 600):
         add({"kind": "natd", "compound": ["seq", [[c, [z, a, q]] for z, a, q, c in compound()]], "how": ["iadd_density", "iadd_natural"][i % 2],
